@@ -32,6 +32,7 @@ type Config struct {
 	InitCoins     int64    `json:"initCoins"`
 	MinDeposit    int64    `json:"minDeposit"`
 	BidMinDeposit int64    `json:"bidMinDeposit"`
+	OrderMaxBids  uint32   `json:"orderMaxBids"` // 0 = keep the default
 	// DSeqTable maps the model's dseq d (1-based) to the concrete deployment sequence number.
 	DSeqTable []uint64 `json:"dseqTable"`
 }
@@ -121,6 +122,9 @@ func NewWorld(cfg Config) (*World, error) {
 	var mgen mtypes.GenesisState
 	cdc.MustUnmarshalJSON(gs[mtypes.ModuleName], &mgen)
 	mgen.Params.BidMinDeposit = sdk.NewInt64Coin(Denom, cfg.BidMinDeposit)
+	if cfg.OrderMaxBids > 0 {
+		mgen.Params.OrderMaxBids = cfg.OrderMaxBids
+	}
 	gs[mtypes.ModuleName] = cdc.MustMarshalJSON(&mgen)
 
 	stateBytes, err := json.Marshal(gs)
